@@ -327,7 +327,8 @@ def similarity_clustermap(
     if norm is None:
         norm = mpl.colors.BoundaryNorm(bounds, cmap.N)
         # plot tick in the middle of the discretized colormap
-        cbar_kws.update(dict(ticks=bounds[:-1] + 0.5))
+        # (on a copy: cbar_kws may be the shared default or the caller's dict)
+        cbar_kws = dict(cbar_kws, ticks=bounds[:-1] + 0.5)
 
     cluster_colors = pd.Series(meta_to_colors[0](cluster, min_count=2), name="Cluster")
     if not meta_columns is None:
